@@ -433,21 +433,56 @@ func (c *Case) Inconclusive(format string, a ...any) {
 	c.mu.Unlock()
 }
 
-// ParkedOnLocks returns the library goroutines that are currently parked on a mutex (real clock,
-// outside bubbles): used after Stop to check that nothing is left blocked on library locks.
-func ParkedOnLocks() []string {
-	p1, _ := libGoroutines(dumpAll())
-	time.Sleep(300 * time.Millisecond)
-	p2, _ := libGoroutines(dumpAll())
-	in1 := map[string]bool{}
-	for _, p := range p1 {
-		in1[p] = true
+// ParkedOnLocks returns the library goroutines that stay parked on a mutex (real clock, use
+// outside bubbles only). A goroutine that merely waits its turn is not "left blocked": the library
+// holds the channel lock across waits that it bounds itself (the fail-safe waits for graphsync to
+// open or cancel a request, 5 s + 1 s), so a goroutine counts only when the same goroutine (by id)
+// is parked on a lock in two dumps 300 ms apart AND still in a third one taken `settle` later,
+// where settle exceeds every bounded wait of the library. The second result is the last dump.
+func ParkedOnLocks() ([]string, string) {
+	const settle = 12 * time.Second
+	onLock := func(dump string) map[string]string {
+		out := map[string]string{}
+		for _, blk := range strings.Split(dump, "\n\n") {
+			blk = strings.TrimSpace(blk)
+			m := goroutineHdr.FindStringSubmatch(blk)
+			if m == nil || !strings.Contains(blk, "github.com/filecoin-project/go-data-transfer/v2") {
+				continue
+			}
+			if st := m[2]; strings.Contains(st, "Mutex") || strings.Contains(st, "semacquire") {
+				if fr := TopLibFrame(blk); fr != "?" {
+					out[m[1]] = fr + "@" + st
+				}
+			}
+		}
+		return out
 	}
-	var out []string
-	for _, p := range p2 {
-		if in1[p] && (strings.Contains(p, "Mutex") || strings.Contains(p, "semacquire")) {
-			out = append(out, p)
+	p1 := onLock(dumpAll())
+	if len(p1) == 0 {
+		return nil, ""
+	}
+	time.Sleep(300 * time.Millisecond)
+	p2 := onLock(dumpAll())
+	still := false
+	for id := range p2 {
+		if _, ok := p1[id]; ok {
+			still = true
 		}
 	}
-	return out
+	if !still {
+		return nil, ""
+	}
+	time.Sleep(settle)
+	last := dumpAll()
+	p3 := onLock(last)
+	var out []string
+	for id, fr := range p3 {
+		if _, ok := p1[id]; ok {
+			if _, ok := p2[id]; ok {
+				out = append(out, fr)
+			}
+		}
+	}
+	sort.Strings(out)
+	return out, last
 }
